@@ -15,6 +15,7 @@ import copy
 import hashlib
 import os
 import random
+import sys
 
 from . import gen, model, runner
 from .core import Group
@@ -98,7 +99,7 @@ def plan_c15(seed: int) -> dict:
         else:
             ops.append(["touch", rng.randrange(0, 8), rng.choice(["str", "calculate_all", "to_dict", "attrs"])])
     return {"engine": "histsim", "property": "C15", "seed": seed, "specs": specs, "inputs": inputs, "ops": ops,
-            "knobs": {"clock_jump": rng.choice([0.0, 0.2])}, "share_components": rng.random() < 0.4}
+            "knobs": {"clock_jump": rng.choice([0.0, 0.2]), "cpu_count": rng.choice([None, 1, 2, 3, 64])}, "share_components": rng.random() < 0.4}
 
 
 # --------------------------------------------------------------------------- pristine references
@@ -122,6 +123,11 @@ def result_canon(res_grouped):
     return out
 
 
+def lazy_canon(res_grouped):
+    """What the returned results report *as returned* (nothing forced)."""
+    return {g: [[k, model.canon(v)] for k, v in tup[0].to_dict().items()] for g, tup in res_grouped.items()}
+
+
 def ref_eval(spec, inp):
     """Runs in its own pristine image."""
     _silence()
@@ -132,6 +138,18 @@ def ref_eval(spec, inp):
     except Exception as e:  # noqa: BLE001 - input not valid for this specification
         return {"invalid": f"{type(e).__name__}: {str(e)[:200]}"}
     return {"result": result_canon(res)}
+
+
+def ref_eval_lazy(spec, inp):
+    """Its own pristine image: result_all=False, default logging options, nothing forced."""
+    _silence()
+    ev = model.build_evaluator(spec)
+    pred, ref = model.build_arrays(inp)
+    try:
+        res = ev.evaluate(pred, ref, result_all=False)
+    except Exception as e:  # noqa: BLE001
+        return {"invalid": f"{type(e).__name__}: {str(e)[:200]}"}
+    return {"lazy": lazy_canon(res)}
 
 
 def ref_spec(spec, root):
@@ -149,10 +167,11 @@ def ref_spec(spec, root):
 
 # --------------------------------------------------------------------------- the history
 class Hist:
-    def __init__(self, plan, root, expected, spec_ref):
+    def __init__(self, plan, root, expected, spec_ref, expected_lazy=None):
         self.plan = plan
         self.root = root
         self.expected = expected
+        self.expected_lazy = expected_lazy or {}
         self.spec_ref = spec_ref
         self.viol = []
         self.notes = {}
@@ -309,6 +328,16 @@ class Hist:
                         if want_time is True and not (isinstance(ct, float) and ct >= 0):
                             self.v("option_independent", f"{where}: save_group_times=True but computation_time is {ct!r}")
                     self.results.append(res)
+                    if o["result_all"] is False and ik in self.expected_lazy and "lazy" in self.expected_lazy[ik]:
+                        # what the call reports as returned must not depend on logging options
+                        got_lazy = lazy_canon(res)
+                        exp_lazy = self.expected_lazy[ik]["lazy"]
+                        strip = lambda d: {g: [x for x in v if x[0] != "computation_time"] for g, v in d.items()}  # noqa: E731
+                        if strip(got_lazy) != strip(exp_lazy):
+                            extra = [k for g in got_lazy for k, _ in got_lazy[g] if k not in [x[0] for x in exp_lazy.get(g, [])]]
+                            self.v("option_independent" if nondefault and pool != "sim" else clause, f"{where}: with result_all=False the call reports a different set of metrics than a pristine call with default logging options (extra {extra[:5]}; options {kw})")
+                        else:
+                            self.note("compared_lazy")
                     self.compare(result_canon(res), ik, clause, where)
                     self.check_arrays(ik, where + " (after reading the result)")
                 elif kind == "keys":
@@ -493,7 +522,26 @@ def execute(plan: dict, root: str) -> dict:
         if st != "ok":
             return {"violations": [], "harness_error": f"pristine evaluation image failed: {val[:500]}"}
         expected[ik] = val
-    h = Hist(plan, root, expected, spec_ref)
+    expected_lazy = {}
+    for op in plan["ops"]:
+        if op[0] == "eval" and op[3].get("result_all") is False and op[2] in expected and op[2] not in expected_lazy and "result" in expected[op[2]]:
+            ik = op[2]
+            si = int(ik[1:ik.index("k")])
+            st, val = runner.child_call(ref_eval_lazy, (plan["specs"][si], plan["inputs"][ik]), timeout=120)
+            if st != "ok":
+                return {"violations": [], "harness_error": f"pristine lazy evaluation image failed: {val[:500]}"}
+            expected_lazy[ik] = val
+    # the number of CPUs the library believes it has is part of the environment of a run
+    ncpu = plan.get("knobs", {}).get("cpu_count")
+    if ncpu:
+        import multiprocessing
+
+        os.cpu_count = lambda: ncpu
+        multiprocessing.cpu_count = lambda: ncpu
+        for name, mod in list(sys.modules.items()):
+            if mod is not None and (name == "panoptica" or name.startswith("panoptica.")) and "cpu_count" in vars(mod):
+                setattr(mod, "cpu_count", lambda: ncpu)
+    h = Hist(plan, root, expected, spec_ref, expected_lazy)
     try:
         return h.run()
     finally:
@@ -609,6 +657,10 @@ def candidates(plan):
                 c = P(plan)
                 c["specs"][si][key] = simple
                 yield f"spec {si} {key}={simple}", c
+    if plan.get("knobs", {}).get("cpu_count"):
+        c = P(plan)
+        c["knobs"]["cpu_count"] = None
+        yield "real cpu count", c
     if plan.get("share_components"):
         c = P(plan)
         c["share_components"] = False
